@@ -29,6 +29,39 @@ int main(int argc, char **argv) {
     mpi::communicator comm = w.comm;
     int np = comm.size, R = comm.rank;
     int reps = vr::env_int("VERIF_REPS", vr::thorough() ? 400 : 120);
+    if (argc > 1 && std::string(argv[1]) == "exh") {
+        // the whole input space of RepartitionModel for this rank count: every vector of local sizes 0..MaxLoc, every
+        // npart <= np and every part vector (odometer over all positions), perm + pmat records only
+        int maxloc = vr::env_int("VERIF_MAXLOC", 2);
+        std::vector<int> sz(np, 0);
+        for (;;) {
+            int n = 0; for (int v : sz) n += v;
+            std::vector<int> off(np + 1, 0); for (int r = 0; r < np; ++r) off[r + 1] = off[r] + sz[r];
+            for (int npart = 1; npart <= np; ++npart) {
+                std::vector<int> flat(n, 0);
+                for (;;) {
+                    std::vector<std::string> pj; for (int r = 0; r < np; ++r) pj.push_back(dv::jints(std::vector<int>(flat.begin() + off[r], flat.begin() + off[r + 1])));
+                    std::vector<int> part(flat.begin() + off[R], flat.begin() + off[R + 1]);
+                    std::vector<ptrdiff_t> perm; ptrdiff_t beg, end;
+                    std::tie(beg, end) = mpi::partition::graph_perm_index(comm, npart, part, perm);
+                    std::string permj = dv::gather_lists(std::vector<ll>(perm.begin(), perm.end()));
+                    std::string rngj = dv::gather_lists(std::vector<ll>{(ll)beg, (ll)end});
+                    { vr::obj o; o.str("k", "perm").i("np", np).i("npart", npart).i("style", 9).raw("parts", dv::jlist(pj)).raw("perm", permj).raw("rng", rngj); dv::emit(o.done()); }
+                    bool exact = true;
+                    auto I = mpi::partition::graph_perm_matrix<BD>(comm, beg, end, perm);
+                    std::string Ij = dv::gather_dm(*I, n, exact);
+                    { vr::obj o; o.str("k", "pmat").i("np", np).raw("perm", permj).raw("rng", rngj).raw("I", Ij).b("exact", exact)
+                        .raw("sizes", dv::gather_lists(std::vector<ll>{(ll)I->loc_rows(), (ll)I->loc_cols(), (ll)I->glob_rows(), (ll)I->glob_cols()})); dv::emit(o.done()); }
+                    int k = 0; while (k < n && ++flat[k] == npart) flat[k++] = 0;
+                    if (k == n) break;
+                }
+            }
+            int k = 0; while (k < np && ++sz[k] > maxloc) sz[k++] = 0;
+            if (k == np) break;
+        }
+        vr::obj o; o.str("e", "End"); dv::emit(o.done());
+        return 0;
+    }
     for (int rep = 0; rep < reps; ++rep) {
         vr::rng g(vr::env_seed() * 1000003ull + rep * 977 + np * 31);       // same stream on every rank
         int maxloc = rep % 5 == 0 ? 2 : 6;
